@@ -654,3 +654,67 @@ func init() {
 		mutant{"new-kv-route-without-the-reserved-key-test", "internal/server/http_handlers.go", "\tmux.HandleFunc(\"DELETE /kv/{key}\", s.handleKVDelete)\n", "\tmux.HandleFunc(\"DELETE /kv/{key}\", s.handleKVDelete)\n\tmux.HandleFunc(\"GET /kv-exists/{key}\", func(w http.ResponseWriter, r *http.Request) {\n\t\t_, found := s.Engine.KVGet(r.PathValue(\"key\"))\n\t\ts.writeHTTPResponse(w, http.StatusOK, map[string]bool{\"exists\": found})\n\t})\n", "WEB-9", "KVGet#1:behind-reserved-key-test"},
 	)
 }
+
+// round 5
+func init() {
+	offset := mutant{"skipped-record-does-not-advance-the-replay-offset", "pkg/engine/recovery.go", "invalid GUNLINK timestamp\", \"source\", sourceID, \"target\", targetID, \"error\", err)\n\t\t\t\t\t\tbreak\n", "invalid GUNLINK timestamp\", \"source\", sourceID, \"target\", targetID, \"error\", err)\n\t\t\t\t\t\tcontinue\n", "ORD-11", "offset-advanced-over-every-decoded-frame"}
+	addMutants("C02", offset)
+	addMutants("C03", offset)
+	addMutants("C01",
+		mutant{"vdrop-decided-by-the-aggregation-map", "pkg/engine/recovery.go", "\t\t\t\tdelete(indexes, idxName)\n\n\t\t\t\t// The dropped index may have come back with the snapshot.\n\t\t\t\tif _, ok := e.DB.GetVectorIndex(idxName); ok {\n", "\t\t\t\tst, known := indexes[idxName]\n\t\t\t\tdelete(indexes, idxName)\n\n\t\t\t\t// The dropped index may have come back with the snapshot.\n\t\t\t\tif known && st.restored {\n", "CDC-8", "arm:VDROP:drop-decided-by-the-DB"},
+		mutant{"benign:vdrop-asks-the-db-before-forgetting-the-state", "pkg/engine/recovery.go", "\t\t\t\tdelete(indexes, idxName)\n\n\t\t\t\t// The dropped index may have come back with the snapshot.\n\t\t\t\tif _, ok := e.DB.GetVectorIndex(idxName); ok {\n", "\t\t\t\t_, inLog := indexes[idxName]\n\t\t\t\tdelete(indexes, idxName)\n\n\t\t\t\t// The dropped index may have come back with the snapshot.\n\t\t\t\tif _, ok := e.DB.GetVectorIndex(idxName); ok || (inLog && ok) {\n", "silent", ""},
+		mutant{"snapshot-skips-unlinked-nodes", "pkg/core/core.go", "\t\t\tfor internalID, node := range nodes {\n\t\t\t\t// Create the node snapshot\n", "\t\t\tfor internalID, node := range nodes {\n\t\t\t\tif node != nil && len(node.Connections) == 0 {\n\t\t\t\t\tcontinue\n\t\t\t\t}\n\t\t\t\t// Create the node snapshot\n", "CDC-12", "every-node-written"},
+		mutant{"benign:snapshot-skips-nil-nodes", "pkg/core/core.go", "\t\t\tfor internalID, node := range nodes {\n\t\t\t\t// Create the node snapshot\n", "\t\t\tfor internalID, node := range nodes {\n\t\t\t\tif node == nil {\n\t\t\t\t\tcontinue\n\t\t\t\t}\n\t\t\t\t// Create the node snapshot\n", "silent", ""},
+	)
+	addMutants("C19",
+		mutant{"negative-ef-search-sizes-the-scratch-slice", "pkg/core/hnsw/hnsw_index.go", "\tif scratchCap < 0 {\n\t\tscratchCap = 0\n\t}\n", "", "GRD-alloc", "Index.searchInternal:make-slice"},
+		mutant{"huge-ef-search-sizes-the-scratch-slice", "pkg/core/hnsw/hnsw_index.go", "\tif scratchCap > int(currentCounter) {\n\t\tscratchCap = int(currentCounter)\n\t}\n", "", "GRD-alloc", "Index.searchInternal:make-slice"},
+		mutant{"benign:ef-search-clamped-with-min-max", "pkg/core/hnsw/hnsw_index.go", "\tif scratchCap < 0 {\n\t\tscratchCap = 0\n\t}\n\tif scratchCap > int(currentCounter) {\n\t\tscratchCap = int(currentCounter)\n\t}\n", "\tscratchCap = max(0, min(scratchCap, int(currentCounter)))\n", "silent", ""},
+		mutant{"negative-refine-batch-size-accepted", "pkg/core/hnsw/optimizer.go", "\tif batchSize <= 0 {\n", "\tif batchSize == 0 {\n", "GRD-alloc", "GraphOptimizer.Refine:make-slice"},
+		mutant{"benign:graph-parameters-checked-by-the-engine-only", "pkg/core/hnsw/hnsw_index.go", "\tif m > MaxM || efConstruction > MaxEfConstruction {\n\t\treturn nil, ValidateParams(m, efConstruction)\n\t}\n", "", "silent", ""},
+		mutant{"raw-request-path-as-metric-label", "internal/server/middleware.go", "metrics.HttpRequestDuration.WithLabelValues(r.Method, pathLabel)", "metrics.HttpRequestDuration.WithLabelValues(r.Method, r.URL.Path)", "WEB-10", "label-values#1"},
+		mutant{"benign:metric-label-sanitised-with-another-replacement", "internal/server/middleware.go", "pathLabel := strings.ToValidUTF8(r.URL.Path, \"\\uFFFD\")", "pathLabel := strings.ToValidUTF8(strings.TrimSuffix(r.URL.Path, \"/\"), \"?\")", "silent", ""},
+	)
+	m := mutant{"graph-parameters-unbounded-anywhere", "pkg/core/hnsw/hnsw_index.go", "\tif m > MaxM || efConstruction > MaxEfConstruction {\n\t\treturn nil, ValidateParams(m, efConstruction)\n\t}\n", "", "GRD-alloc", "make-slice"}
+	moreEdits[m.Name] = []edit{{"pkg/engine/ops.go", "\tif err := hnsw.ValidateParams(m, efC); err != nil {\n\t\treturn err\n\t}\n", ""}, {"internal/server/http_handlers.go", "\tif err := hnsw.ValidateParams(req.M, req.EfConstruction); err != nil {\n\t\ts.writeHTTPError(w, http.StatusBadRequest, err)\n\t\treturn\n\t}\n", ""}}
+	addMutants("C19", m)
+	addMutants("C04",
+		mutant{"memory-id-from-the-second-clock", "internal/mcp/service.go", "\tid := fmt.Sprintf(\"mem_%d\", time.Now().UnixNano())\n", "\tid := fmt.Sprintf(\"mem_%d\", time.Now().Unix())\n", "GRD-clockid", "clock-id"},
+	)
+	addMutants("C06",
+		mutant{"benign:text-scores-normalised-in-the-goroutine-after-filtering", "pkg/engine/ops.go", "\t\t\t} else {\n\t\t\t\ttextResults = results\n\t\t\t}\n\t\t}()\n", "\t\t\t} else {\n\t\t\t\ttextResults = results\n\t\t\t}\n\t\t\tnormalizeTextScores(textResults)\n\t\t}()\n", "silent", ""},
+	)
+	moreEdits["benign:text-scores-normalised-in-the-goroutine-after-filtering"] = []edit{{"pkg/engine/ops.go", "\tif textQuery != \"\" {\n\t\tnormalizeTextScores(textResults)\n\t}\n", ""}}
+	addMutants("C09",
+		mutant{"benign:priority-list-as-an-array", "pkg/engine/ops.go", "\tcandidates := []string{\"content\", \"text\", \"page_content\", \"body\", \"description\", \"summary\"}\n", "\tcandidates := [...]string{\"content\", \"text\", \"page_content\", \"body\", \"description\", \"summary\"}\n", "silent", ""},
+	)
+	addMutants("C17",
+		mutant{"benign:similarity-clamped-to-one", "pkg/proxy/proxy.go", "\tif sim <= 0 {\n\t\treturn float32(math.Inf(1))\n\t}\n", "\tif sim <= 0 {\n\t\treturn float32(math.Inf(1))\n\t}\n\tif sim > 1 {\n\t\tsim = 1\n\t}\n", "silent", ""},
+	)
+	addMutants("C20",
+		mutant{"benign:stems-remembered-per-language", "pkg/textanalyzer/stemmer_english.go", "\t\tstemmedTokens[i] = stemEnglish(token)\n", "\t\tstemmedTokens[i] = memoEnglishStem(token)\n", "silent", ""},
+	)
+	moreEdits["benign:stems-remembered-per-language"] = []edit{{"pkg/textanalyzer/stemmer_english.go", "// --- Generic Support Functions (Used by both stemmers) ---\n", "var englishStemMemo = map[string]string{}\nvar englishStemMemoMu sync.Mutex\n\nfunc memoEnglishStem(token string) string {\n\tenglishStemMemoMu.Lock()\n\tdefer englishStemMemoMu.Unlock()\n\tif s, ok := englishStemMemo[token]; ok {\n\t\treturn s\n\t}\n\ts := stemEnglish(token)\n\tenglishStemMemo[token] = s\n\treturn s\n}\n\n// --- Generic Support Functions (Used by both stemmers) ---\n"}, {"pkg/textanalyzer/stemmer_english.go", "import \"strings\"\n", "import (\n\t\"strings\"\n\t\"sync\"\n)\n"}}
+	addMutants("C04",
+		mutant{"benign:nothing-to-train-on-returns-early", "pkg/core/hnsw/hnsw_index.go", "func (h *Index) ensureQuantizerTrained(trainingData [][]float32) {\n", "func (h *Index) ensureQuantizerTrained(trainingData [][]float32) {\n\tif len(trainingData) == 0 {\n\t\treturn\n\t}\n", "silent", ""},
+	)
+	addMutants("C10",
+		mutant{"benign:identical-link-shortcut-that-checks-the-inverse", "pkg/engine/graph.go", "\t// 1. Persistence (AOF)\n\t// We use the new native command: GLINK", "\tif inverseRelationType == \"\" && false {\n\t\treturn nil\n\t}\n\t// 1. Persistence (AOF)\n\t// We use the new native command: GLINK", "silent", ""},
+	)
+}
+
+func init() {
+	addMutants("C07",
+		mutant{"insert-into-tombstones-stays-orphan", "pkg/core/hnsw/hnsw_index.go", "\tif !linked {\n\t\th.metaMu.Lock()\n\t\tif ep := h.loadNode(h.entrypointID.Load()); ep == nil || ep.Deleted.Load() {\n\t\t\th.entrypointID.Store(internalID)\n\t\t\th.maxLevel.Store(int32(level))\n\t\t}\n\t\th.metaMu.Unlock()\n\t}\n", "\t_ = linked\n", "GRD-orphan", "entry-point-tombstone-replaced"},
+		mutant{"entry-point-replaced-when-it-is-live", "pkg/core/hnsw/hnsw_index.go", "if ep := h.loadNode(h.entrypointID.Load()); ep == nil || ep.Deleted.Load() {\n\t\t\th.entrypointID.Store(internalID)", "if ep := h.loadNode(h.entrypointID.Load()); ep != nil && !ep.Deleted.Load() {\n\t\t\th.entrypointID.Store(internalID)", "GRD-orphan", "entry-point-tombstone-replaced"},
+		mutant{"benign:tombstone-test-written-the-other-way-round", "pkg/core/hnsw/hnsw_index.go", "if ep := h.loadNode(h.entrypointID.Load()); ep == nil || ep.Deleted.Load() {\n\t\t\th.entrypointID.Store(internalID)\n\t\t\th.maxLevel.Store(int32(level))\n\t\t}\n", "if ep := h.loadNode(h.entrypointID.Load()); ep != nil && !ep.Deleted.Load() {\n\t\t\t// a live entry point: some other insert took over meanwhile\n\t\t} else {\n\t\t\th.maxLevel.Store(int32(level))\n\t\t\th.entrypointID.Store(internalID)\n\t\t}\n", "silent", ""},
+	)
+}
+
+func init() {
+	addMutants("C19",
+		mutant{"negative-refine-ef-reaches-the-layer-search", "pkg/core/hnsw/optimizer.go", "\tif ef <= 0 {\n\t\tef = o.index.efConstruction\n\t}\n\t// The maintenance configuration is accepted", "\tif ef == 0 {\n\t\tef = o.index.efConstruction\n\t}\n\t// The maintenance configuration is accepted", "GRD-alloc", "Index.searchLayerUnlocked:bound"},
+		mutant{"result-cut-without-a-length-test", "pkg/engine/ops.go", "\tif len(finalRes) > k {\n\t\tfinalRes = finalRes[:k]\n\t}\n", "\tif k > 0 {\n\t\tfinalRes = finalRes[:k]\n\t}\n", "GRD-alloc", "Engine.searchWithFusion:bound"},
+		mutant{"benign:result-cut-with-min", "pkg/engine/ops.go", "\tif len(finalRes) > k {\n\t\tfinalRes = finalRes[:k]\n\t}\n", "\tfinalRes = finalRes[:min(k, len(finalRes))]\n", "silent", ""},
+	)
+}
